@@ -430,6 +430,32 @@ func checkConstraintFamilies(w *World, r *Result) {
 							}
 						}
 					}
+					// or the call is unconditional and the callee itself leaves, returning nothing, when the column has
+					// no guard (`value, ok := column.Field.IsSQLGuard(); if !ok { return nil }`)
+					if len(conds) == 0 {
+						if h := w.Funcs[calleeOf(info, call)]; h != nil && h.Decl.Body != nil {
+							ast.Inspect(h.Decl.Body, func(z ast.Node) bool {
+								is, ok := z.(*ast.IfStmt)
+								if !ok || is.Else != nil || len(is.Body.List) != 1 {
+									return true
+								}
+								ret, ok := is.Body.List[0].(*ast.ReturnStmt)
+								if !ok || len(ret.Results) != 1 || es(ret.Results[0]) != "nil" {
+									return true
+								}
+								for _, c := range splitCond(is.Cond, true) {
+									if id := identOf(c.expr); id != nil && !c.truth {
+										for _, d := range defsIn(info, h.Decl, objOf(info, id)) {
+											if c2, ok := ast.Unparen(d).(*ast.CallExpr); ok && strings.HasSuffix(fullName(calleeOf(info, c2)), ".IsSQLGuard") {
+												filterOK = true
+											}
+										}
+									}
+								}
+								return true
+							})
+						}
+					}
 				default:
 					filterOK = len(conds) == 0
 				}
